@@ -164,6 +164,7 @@ func c10Check(r *obs.Run, a c10alpha, s []byte, k int, exhaustive bool) {
 		fail("check", "Check()", []interface{}{ok, found}, []interface{}{true, nvalid})
 	}
 	nwords := 1 << (2 * uint(k))
+	scribbled := 0
 	query := func(wd int) {
 		want := refPos[wd]
 		got, err := ki.KmerPositions(kmerindex.Kmer(wd))
@@ -179,6 +180,17 @@ func c10Check(r *obs.Run, a c10alpha, s []byte, k int, exhaustive bool) {
 		r.Count("words_queried", 1)
 		if len(want) == 0 {
 			r.Count("absent_words_queried", 1)
+		}
+		// a hostile caller: the answer is the caller's to overwrite and to append to; later answers (for this
+		// word and for its neighbours in the table) must not change because of it
+		if len(got) > 0 && r.Rng.Intn(4) == 0 {
+			for j := range got {
+				got[j] = -7 - j
+			}
+			got = append(got, -9, -9, -9)
+			_ = got
+			scribbled++
+			r.Count("answers_overwritten_by_caller", 1)
 		}
 	}
 	queryText := func(wd int) {
@@ -241,6 +253,21 @@ func c10Check(r *obs.Run, a c10alpha, s []byte, k int, exhaustive bool) {
 			if !reflect.DeepEqual(g, want) {
 				fail("index-map", "StringKmerIndex["+c10Text(a, wd, k)+"]", g, want)
 			}
+		}
+		for _, ps := range m { // the maps are the caller's as well
+			if r.Rng.Intn(3) == 0 {
+				for j := range ps {
+					ps[j] = -5
+				}
+				ps = append(ps, -6, -6)
+				_ = ps
+				scribbled++
+			}
+		}
+	}
+	if scribbled > 0 { // every present word again, after the caller overwrote some of the earlier answers
+		for wd := range refPos {
+			query(wd)
 		}
 	}
 	// sub-range iteration
